@@ -34,7 +34,7 @@ SPEC = {
     "model_vo": "theories/C16/Model.vo",
     "bin": "c16",
     "gen": gen,
-    "n": {"quick": 6000, "thorough": 60000},
+    "n": {"quick": 30000, "thorough": 300000},
     "crash_is_violation": True,
     "engine_timeout": 1700,
     "rule": "engine c16: (1) the real cursor codec (PaginationCursor::decode, hex_decode through the cfg hook) on valid, "
